@@ -995,6 +995,11 @@ def r16_7(ctx, rc):
     from .c11 import r11_1
     r12_4(ctx, rc)
     r11_1(ctx, rc)
+    # the failure marker that is written is what the next build's lookups
+    # refuse on (R5.2): a lookup that ignores it serves a failed call as a
+    # success and re-records it without the marker
+    from .c05 import r5_2
+    r5_2(ctx, rc)
 
 
 RULES = [
